@@ -54,7 +54,8 @@ CHECKS = {
  "C06": ("Lean 4 theorems: sub_mesh_pattern shading characterisation, composition of occurrences, meshInMesh soundness and completeness for all permutations, strongest-subpattern + correspondence with semantic oracle",
          "Proved for all mesh pairs and ALL permutations: reported mesh-in-mesh containment transfers containment through the composed points; "
          "sub_mesh_pattern shades exactly the shaded point-free regions and is the strongest implied pattern. Exhaustive correspondence on all pairs |nu|<=1,|mu|<=2 "
-         "over all shadings with a brute-force semantic oracle.",
+         "over all shadings with a brute-force semantic oracle. Patt.contained_in / avoided_by with several mesh targets are modelled "
+         "(containedInMeshes_sound: a reported True transfers to every permutation containing any one target).",
          "", "5/C06"),
  "C07": ("Lean 4 small-step model of threads sharing one Av object under the source's lock discipline + deterministic-scheduler correspondence on real threads",
          "Threads are modelled as a small-step machine over the C02 cache model (acquire, one write per shared mutation, release, read); real "
@@ -84,7 +85,7 @@ CHECKS = {
          "hitting_sound, mine_covers, the private containment tests equal mesh containment / sub-mesh inclusion, maximal mesh pattern, clean-up bases hit "
          "every tested bad permutation, representation independence. Tied to the code by all 1024 subsets of S_0..S_3 x all m<=n<=3 x list/dict/predicate and "
          "random arbitrary sets inside S_<=5, with the three guarantees re-judged on the implementation's own output by an independent mesh containment.",
-         "auto_bisc (set-iteration-order dependent) and arbitrary list order are evaluated only.", "5/C17"),
+         "auto_bisc is modelled for a property given as a function, a list and a pair of dictionaries (Model/C17Auto, C17AutoSrc: every choice of bases[0] is a parameter; a returned description passed both sanity checks up to L >= 8; the give-up exits are exactly the code's); the file-name branch and run_clean_up's error paths are evaluated only.", "5/C17"),
  "C05": ("Lean 4 theorems: Basis/MeshBasis construction is order- and repetition-independent, defines the same class, is an antichain and a fixed point; text base independence; Av instance sharing + correspondence",
          "Proved: Basis is the unique sorted antichain of containment-minimal inputs (perm/set invariance, same class via transitivity of containment, "
          "fixed point), from_string is base independent, equal bases give the same Av object; for MeshBasis (after the sort-key/shortcut fixes) the same "
@@ -123,7 +124,7 @@ CHECKS = {
          "other element of the prescribed one-plus-(in)decomposable form (zero_plus_*, Rd2134/Ru2143 shapes characterised by definition), no exception, invariance "
          "under order and repetition, insertion-encoding strategy = is_insertion_encodable, find_strategies(quick) = slow result minus long strategies. "
          "Exhaustive correspondence on all sets of <=3 permutations of length 1-4 with an independent oracle and all eight images.",
-         "Every shape test of the eight core strategies (bstrip, RdCdCu/RdCu, the mesh conditions and last components of Rd2134/Ru2143) is proved equal to an index-free definition for all lengths; invariance under the eight symmetries is proved for every strategy and both searches; FinitelyManySimples takes has_finite_simples as input (C16, whose symmetry invariance is now proved).", "5/C19"),
+         "Every shape test of the eight core strategies (bstrip, RdCdCu/RdCu, the mesh conditions and last components of Rd2134/Ru2143) is proved equal to an index-free definition for all lengths; invariance under the eight symmetries is proved for every strategy and both searches; FinitelyManySimples takes has_finite_simples as input in the model; instantiated with C16's model the hypothesis is discharged (Props/C19Ext.lean: strategyApplies_act, findStrategies_sym_full).", "5/C19"),
  "C20": ("Lean 4 theorems: JSON round trip, read-after-writes for the generated open mode over all op histories, reader = file-value spec (missing/malformed reported, never other data), automaton DB invariants by induction over histories + correspondence + exhaustive enumeration of shipped data",
          "Proved: from_json(dumps d) = d; for the write mode and reader shape extracted from the source each run, after ANY sequence of writes/reads from any "
          "initial file system a read returns exactly the dataset last written to that name and other names are untouched; read_bisc_file returns data iff the "
@@ -138,7 +139,7 @@ CHECKS = {
          "independent); 'finitely many pin permutations' <-> accepted words bounded in length (for every driver-executed instance via a checked certificate). "
          "automata-lib is not modelled: its DFAs are compared with the model's own determinise/minimise/product pipeline through canonical minimal forms, "
          "including every shipped dfa_db file against a fresh computation.",
-         "accepts <-> the permutation of the pin sequence contains a basis element (Bassino-Bouvel-Pierrot-Rossin) is PROVED (Props/C15Ext.lean accepts_iff_contains, from C14.pinword_contains_iff), as is has_finite_pinperms <-> the avoiding pin permutations are bounded, its dependence on the class only and its invariance under the eight symmetries; the bounded enumeration still runs as a test.", "5/C15"),
+         "accepts <-> the permutation of the pin sequence contains a basis element (Bassino-Bouvel-Pierrot-Rossin) is PROVED (Props/C15Ext.lean accepts_iff_contains and, stated purely on Model.C15 functions, accepts_iff_contains_own / has_finite_pinperms_iff_own with mToSp_bridge, isStrict_bridge, finpin_eq; from C14.pinword_contains_iff), as is has_finite_pinperms <-> the avoiding pin permutations are bounded, its dependence on the class only and its invariance under the eight symmetries; the bounded enumeration still runs as a test.", "5/C15"),
  "C16": ("Lean 4 theorems: decision logic of has_finite_simples / Av.has_finitely_many_simples / CLI / strategy, D8 characterisation and invariance of the special-simples test, explicit infinite families avoid the generated tables for all m + correspondence on all entry points with a brute-force simples oracle",
          "Proved: has_finite_simples = special AND pin for every flag combination, all four entry points ask the same question; the special test succeeds iff for "
          "each table T (parallel alternations, wedges type 1/2, regenerated from the source) and each of the eight symmetries some basis element avoids g.T, it "
